@@ -150,7 +150,7 @@ fn bounds(ctx: &Ctx) -> Bounds {
             jmax: 3,
             grid: 256,
             deep_x_limit: None,
-            near_one_dense_max: 12,
+            near_one_dense_max: 6,
         },
     )
 }
